@@ -16,6 +16,9 @@ char *strtok_r(char *str, const char *delim, char **saveptr) {
 	/* search first not delimiting character */
 	do {
 		if ('\0' == (ch = *str++)) {
+			/* no token: remember the terminator, so that the next
+			 * call with str == NULL finds no token either */
+			*saveptr = str - 1;
 			return NULL;
 		}
 	} while(strchr(delim, ch));
